@@ -265,7 +265,7 @@ func main() {
 	repo := flag.String("repo", "/repo", "repository root")
 	out := flag.String("out", "", "output Lean file (Gen/Tables.lean)")
 	fpOut := flag.String("fingerprints", "", "output fingerprints json")
-	mapFile := flag.String("model-map", "", "model_map.json: modelled Go functions")
+	mapFile := flag.String("model-map", "", "directory of model-map json files: modelled Go functions")
 	flag.Parse()
 
 	e := &emitter{}
@@ -273,7 +273,9 @@ func main() {
 	e.f("-- Regenerated on every check; the theorems in Props/ are stated against these tables.")
 	for _, mod := range []struct{ ns, dir string }{{"Restli.Gen", "v2"}, {"Restli.GenRoot", "."}} {
 		e.f("namespace %s", mod.ns)
-		extractModule(e, filepath.Join(*repo, mod.dir), mod.dir == ".")
+		for _, t := range tableFuncs {
+			t.f(e, filepath.Join(*repo, mod.dir), mod.dir == ".")
+		}
 		e.f("end %s", mod.ns)
 	}
 	if *out != "" {
@@ -283,19 +285,26 @@ func main() {
 	}
 
 	if *fpOut != "" && *mapFile != "" {
-		data, err := os.ReadFile(*mapFile)
-		if err != nil {
-			fatalf("%v", err)
-		}
-		var mm []struct {
+		type entry struct {
 			Module string   `json:"module"` // "v2" or "."
 			Pkg    string   `json:"pkg"`
 			Funcs  []string `json:"funcs"`
 			Lean   string   `json:"lean"`
 			Props  []string `json:"props"`
 		}
-		if err := json.Unmarshal(data, &mm); err != nil {
-			fatalf("model map: %v", err)
+		var mm []entry
+		mapFiles, _ := filepath.Glob(filepath.Join(*mapFile, "*.json"))
+		sort.Strings(mapFiles)
+		for _, mf := range mapFiles {
+			data, err := os.ReadFile(mf)
+			if err != nil {
+				fatalf("%v", err)
+			}
+			var part []entry
+			if err := json.Unmarshal(data, &part); err != nil {
+				fatalf("model map %s: %v", mf, err)
+			}
+			mm = append(mm, part...)
 		}
 		fps := map[string]string{}
 		var missing []string
@@ -315,6 +324,19 @@ func main() {
 		js, _ := json.MarshalIndent(res, "", " ")
 		writeIfChanged(*fpOut, string(js)+"\n")
 	}
+}
+
+// tableFuncs are registered by the tables_*.go files (one per modelled area) and run in name order.
+type tableFunc struct {
+	name string
+	f    func(e *emitter, root string, isRoot bool)
+}
+
+var tableFuncs []tableFunc
+
+func registerTables(name string, f func(e *emitter, root string, isRoot bool)) {
+	tableFuncs = append(tableFuncs, tableFunc{name, f})
+	sort.Slice(tableFuncs, func(i, j int) bool { return tableFuncs[i].name < tableFuncs[j].name })
 }
 
 func writeIfChanged(path, content string) {
